@@ -17,6 +17,7 @@ var defectKinds = []string{
 	"rule-violating-types", "allof-missing", "mutual-bad-types", "duplicate-operation-ids", "duplicate-paths",
 	"similar-paths", "path-bad-user-types", "undefined-types-many-types", "undefined-macros", "bad-enum-bodies",
 	"request-without-body", "response-without-body", "headers-not-object",
+	"empty-path-parameter", "repeated-path-parameter",
 }
 
 // defectGroups: kinds that are detected in the same phase of the builder.
@@ -25,6 +26,7 @@ var defectGroups = [][]string{
 	{"self-pasting-macros", "undefined-macros", "duplicate-macros"},                               // macro collection / paste
 	{"duplicate-types", "undefined-types-many-types", "rule-violating-types", "mutual-bad-types", "allof-missing", "undefined-enums"}, // user types
 	{"duplicate-paths", "similar-paths", "path-extra-props", "path-bad-user-types"},                // paths
+	{"empty-path-parameter", "repeated-path-parameter"},                                            // path parameters of Path-less directives
 	{"undefined-tags", "duplicate-tags", "duplicate-servers", "duplicate-operation-ids", "duplicate-enums", "bad-enum-bodies"},
 }
 
@@ -99,6 +101,10 @@ func defectBlock(kind string, n int, r *Rand) string {
 		for i := 0; i < k; i++ {
 			fmt.Fprintf(&sb, "ENUM @be%d_%d\n  [\"a\", \"a\"]\n", n, i)
 		}
+	case "empty-path-parameter":
+		fmt.Fprintf(&sb, "GET /zep%d/{}\n  200 any\n", n)
+	case "repeated-path-parameter":
+		fmt.Fprintf(&sb, "GET /zrp%d/{x}/b/{x}\n  200 any\n", n)
 	case "request-without-body":
 		fmt.Fprintf(&sb, "POST /zrq%d\n  Request\n    Headers\n      {\"X-A\": \"y\"}\n  200 any\n", n)
 	case "response-without-body":
